@@ -45,6 +45,10 @@ func (ctx *Context) RunExpr(value string, useUpCtxLocal bool) (*VMValue, error) 
 		codeIndex: 0,
 	})
 
+	if !ctx.IsRunning {
+		// 独立调用(不在某次求值过程中)时重新计算算力，否则每次调用都在上一次的计数上累加，迟早触发算力上限
+		ctx.NumOpCount = 0
+	}
 	oldErr := ctx.Error // 注意，这一储存在并发状态下可能并不准确
 	ctx.Error = nil     // 之前语句留下的错误不属于本次执行
 	v := val.FuncInvokeRaw(ctx, nil, useUpCtxLocal)
